@@ -27,6 +27,31 @@ func configInvalidClasses(c *Ctx) {
 	if fi == nil {
 		return
 	}
+	// locals by role: the port variables are the second results of net.SplitHostPort on the two
+	// address fields, the proxy counter is the local that is incremented
+	hp, gp, pc := "httpPort", "grpcPort", "proxyCount"
+	ast.Inspect(fi.Decl.Body, func(n ast.Node) bool {
+		switch v := n.(type) {
+		case *ast.AssignStmt:
+			if len(v.Rhs) == 1 && len(v.Lhs) == 3 {
+				if call, ok := ast.Unparen(v.Rhs[0]).(*ast.CallExpr); ok && fullCalleeName(fi.Pkg.TypesInfo, call) == "net.SplitHostPort" && len(call.Args) == 1 {
+					if id, ok := v.Lhs[1].(*ast.Ident); ok && id.Name != "_" {
+						switch selName(call.Args[0]) {
+						case "HTTPAddress":
+							hp = id.Name
+						case "GRPCAddress":
+							gp = id.Name
+						}
+					}
+				}
+			}
+		case *ast.IncDecStmt:
+			if id, ok := v.X.(*ast.Ident); ok && v.Tok == token.INC {
+				pc = id.Name
+			}
+		}
+		return true
+	})
 	strEmpty := func(s St, f string) string { return fieldAtom(s, `#""`, "==", f) }
 	nilOf := func(s St, f string) string {
 		for k, v := range s.m {
@@ -61,12 +86,12 @@ func configInvalidClasses(c *Ctx) {
 		{"zstd_implementation-unknown", []string{".ZstdImplementation"}, func(s St) bool {
 			return fieldAtom(s, `#"go"`, "==", "ZstdImplementation") == "T" || fieldAtom(s, `#"cgo"`, "==", "ZstdImplementation") == "T"
 		}},
-		{"http-and-grpc-on-one-port", []string{"httpPort", "grpcPort", ".HTTPAddress", ".GRPCAddress", "err"}, func(s St) bool {
+		{"http-and-grpc-on-one-port", []string{hp, gp, ".HTTPAddress", ".GRPCAddress", "err"}, func(s St) bool {
 			eq := atomVal(s, func(l, o, r string) bool {
-				return o == "==" && ((strings.HasPrefix(l, "grpcPort@") && strings.HasPrefix(r, "httpPort@")) || (strings.HasPrefix(l, "httpPort@") && strings.HasPrefix(r, "grpcPort@")))
+				return o == "==" && ((strings.HasPrefix(l, gp+"@") && strings.HasPrefix(r, hp+"@")) || (strings.HasPrefix(l, hp+"@") && strings.HasPrefix(r, gp+"@")))
 			})
-			noHTTPPort := atomVal(s, func(l, o, r string) bool { return o == "==" && l == `#""` && strings.HasPrefix(r, "httpPort@") }) == "T"
-			noGRPCPort := atomVal(s, func(l, o, r string) bool { return o == "==" && l == `#""` && strings.HasPrefix(r, "grpcPort@") }) == "T"
+			noHTTPPort := atomVal(s, func(l, o, r string) bool { return o == "==" && l == `#""` && strings.HasPrefix(r, hp+"@") }) == "T"
+			noGRPCPort := atomVal(s, func(l, o, r string) bool { return o == "==" && l == `#""` && strings.HasPrefix(r, gp+"@") }) == "T"
 			grpcOff := fieldAtom(s, `#""`, "==", "GRPCAddress") == "T" || fieldAtom(s, `#"none"`, "==", "GRPCAddress") == "T"
 			return eq == "F" || noHTTPPort || noGRPCPort || grpcOff || predUnix(s, "HTTPAddress") == "T" || predUnix(s, "GRPCAddress") == "T"
 		}},
@@ -88,7 +113,7 @@ func configInvalidClasses(c *Ctx) {
 			}
 			return allow == "false" || strEmpty(s, "TLSCaFile") == "F" || strEmpty(s, "HtpasswdFile") == "F" || nilOf(s, "LDAP") == "nonnil"
 		}},
-		{"more-than-one-proxy", []string{"proxyCount", ".S3CloudStorage != nil", ".HTTPBackend != nil", ".GoogleCloudStorage != nil", ".AzBlobConfig != nil", ".GRPCBackend != nil"}, func(s St) bool {
+		{"more-than-one-proxy", []string{pc, ".S3CloudStorage != nil", ".HTTPBackend != nil", ".GoogleCloudStorage != nil", ".AzBlobConfig != nil", ".GRPCBackend != nil"}, func(s St) bool {
 			n := 0
 			for _, f := range backends {
 				switch nilOf(s, f) {
